@@ -150,9 +150,14 @@ def reference_rows(rl):
     return rows
 
 
-def match_rows(facts, pm, rl, role_list):
+def match_rows(facts, pm, rl, role_list, weak_out=None):
     """Compare extracted rejection rows of the given roles with R-FAULT.  Returns (matched, missing, extra)
-    where each entry is (role, description, site, fnkey)."""
+    where each entry is (role, description, site, fnkey).
+
+    A row matches a reference row *exactly* when its error / callee / arguments agree AND its whole path condition is the
+    documented trigger plus benign conjuncts only (see benign_atom).  A row that agrees but carries another conjunct
+    refuses LESS than documented: it is not an extra refusal (so it is not reported by C02) but the documented refusal
+    counts as missing (C05); such rows are appended to weak_out."""
     ref = [r for r in reference_rows(rl) if r["role"] in role_list]
     inv = {v: k for k, v in rl.items() if v}
     matched, extra = [], []
@@ -161,22 +166,30 @@ def match_rows(facts, pm, rl, role_list):
         key = rl.get(role)
         if not key:
             raise AnchorError("role %s not found in the crate" % role)
+        role_refs = [r for r in reference_rows(rl) if r["role"] == role]
         for row in models.rejections(facts, key):
             if row["kind"] in ("ok", "some"):
                 continue
             desc = describe_row(row)
             hit = None
+            weak = None
             for i, r in enumerate(ref):
                 if r["role"] != role or i in used:
                     continue
-                if row_matches(facts, rl, inv, r, row):
+                m = row_matches(facts, rl, inv, r, row, role_refs)
+                if m is True:
                     hit = i
                     break
-            if hit is None:
-                extra.append((role, desc, row["site"], key))
-            else:
+                if m and weak is None:
+                    weak = (i, m)
+            if hit is not None:
                 used.add(hit)
                 matched.append((role, describe_ref(ref[hit]), desc, row["site"], key))
+            elif weak is not None:
+                if weak_out is not None:
+                    weak_out.append((role, describe_ref(ref[weak[0]]), desc + "  -- only under the further condition " + weak[1], row["site"], key))
+            else:
+                extra.append((role, desc, row["site"], key))
     missing = [(r["role"], describe_ref(r), "", rl.get(r["role"], "")) for i, r in enumerate(ref) if i not in used]
     return matched, missing, extra
 
@@ -214,33 +227,146 @@ def loosen(x):
     return x
 
 
-def row_matches(facts, rl, inv, ref, row):
+def neg(a):
+    return a[:-1] + (not a[-1],) if isinstance(a[-1], bool) else a
+
+
+def regions_in(x, out=None):
+    """all region sub-terms occurring in a (nested) tuple"""
+    if out is None:
+        out = []
+    if isinstance(x, tuple):
+        if x and isinstance(x[0], str) and x[0] in ("Input", "StripPrefix", "TrimStart", "Trim", "TrimEnd", "RSplitL", "RSplitR", "SplitL", "SplitR", "RSplitLOpt", "RSplitROpt", "SplitLOpt", "SplitROpt", "Item", "Decode"):
+            out.append(x)
+        for y in x:
+            regions_in(y, out)
+    return out
+
+
+def callee_of_ref(rl, r):
+    cr = r.get("callee_role")
+    return {"T::from_str": "std::str::FromStr::from_str", "finish": "PurlShape::finish", "try_get_typed<Checksum>": "qualifiers::Qualifiers::try_get_typed"}.get(cr, rl.get(cr))
+
+
+def benign_atom(a, hits, row, role_refs, rl):
+    """Is conjunct `a` of an extracted row's path condition harmless, given that the documented trigger(s) `hits` are on it?
+      (i)   the negation of another documented trigger of the same function, or the success of another documented
+            fallible step of it (priority among refusals: that input is refused by the other row);
+      (ii)  implied by the trigger itself (an empty string contains nothing);
+      (iii) structural: the existence of a region the row itself talks about (found(c, X) for a split of X at c, next() for
+            an item), the payload of an earlier step, the enum variant dispatch of a per-type hook, or the documented
+            skip tests of the segment loops."""
+    la = loosen(a)
+    for r in role_refs:
+        if r["kind"] == "err":
+            ts = [r["trigger"]] if "trigger" in r else list(r.get("triggers", []))
+            for t in ts:
+                if la == loosen(neg(t)):
+                    return True
+    if a[0] == "callres" and a[-1] in ("Ok?", "Ok", "Some"):
+        for r in role_refs:
+            if r["kind"] in ("propagate", "tail") and callee_of_ref(rl, r) == a[1]:
+                return True
+    for h in hits:
+        if h[0] == "empty" and h[-1] is True:
+            if a[0] == "found" and a[-1] is False and loosen(a[3]) == loosen(h[1]):
+                return True
+            if a[0] in ("contains", "contains-any") and a[-1] is False and loosen(a[2]) == loosen(h[1]):
+                return True
+    mentioned = regions_in(tuple(row.get("args", ()))) + regions_in(tuple(row.get("triggers", []))) + regions_in(tuple(hits))
+    lm = [loosen(m) for m in mentioned]
+    if a[0] == "found" and a[-1] is True:
+        for m in lm:
+            if len(m) == 3 and m[0] in ("SplitL", "SplitR") and m[1] == a[2] and m[2] == loosen(a[3]):
+                return True
+    if a[0] == "next" and a[-1] is True:
+        return True  # "there is a (next) item": inherent to a refusal about an item; which items are visited is the loop rules' business
+    if a[0] == "is" and a[-1] in ("Some", "Vacant", "Ok", "Ok?"):
+        subj = a[1]
+        text = str(row.get("callterm", "")) + str(row.get("errterm", "")) + str(row.get("args", ""))
+        if subj in text or subj.split("(")[0] in text:
+            return True
+        # negation of the 'occupied' refusal
+        if a[-1] == "Vacant" and any(r.get("trigger_kind") == "occupied" for r in role_refs):
+            return True
+        if a[-1] == "Some" and any(r["kind"] == "propagate" and callee_of_ref(rl, r) and callee_of_ref(rl, r) in subj for r in role_refs):
+            return True
+    if a[0] == "is" and row.get("fn") in (rl.get("pt-finish"), rl.get("cow-finish")) and a[1] in ("arg1", "deref(arg1)"):
+        return True
+    if row.get("fn") in (rl.get("subpath-decoder"), rl.get("namespace-decoder")):
+        skip = {"", ".", ".."} if row.get("fn") == rl.get("subpath-decoder") else {""}
+        if a[0] == "inlist" and a[-1] is False and loosen(a[2]) == loosen(SEG) and set(a[1]) <= skip:
+            return True
+        if a[0] == "empty" and a[-1] is False and loosen(a[1]) == loosen(SEG):
+            return True
+    return False
+
+
+def region_known(r):
+    return isinstance(r, tuple) and r and r[0] != "?"
+
+
+def path_ok(hits, row, role_refs, rl, own=None):
+    """None if every conjunct of the row's path condition other than the hits is benign; else the shown offending atoms"""
+    bad = []
+    lh = [loosen(h) for h in hits]
+    for a in row.get("catoms", []):
+        if loosen(a) in lh:
+            continue
+        if own is not None and a[0] == "callres" and a[1] == own and a[-1] in ("Err?", "Err", "None"):
+            continue
+        if benign_atom(a, hits, row, role_refs, rl):
+            continue
+        bad.append(show_canon(a))
+    return None if not bad else "; ".join(bad)[:300]
+
+
+def row_matches(facts, rl, inv, ref, row, role_refs=()):
+    """True (exact), a string (agrees, but only under the shown further condition), or False."""
     if ref["kind"] == "err":
         if row["kind"] != "err" or row["error"] != ref["error"]:
             return False
         trigs = set(row.get("triggers", []))
+        pool = set(row.get("catoms", [])) | trigs
+        hits = None
         if "trigger" in ref:
-            return loosen(trigs) == loosen({ref["trigger"]})
-        if "triggers" in ref:
-            return loosen(trigs) == loosen(ref["triggers"])
-        tk = ref["trigger_kind"]
-        if tk == "occupied":
-            return len(trigs) == 1 and all(t[0] == "is" and t[-1] == "Occupied" and "Qualifiers::entry" in t[1] for t in trigs)
-        if tk == "invalid-key":
-            if len(trigs) != 1:
-                return False
-            t = next(iter(trigs))
-            if t[0] == "pred" and t[2] == (IN,) and t[3] is False and t[1] in facts.bodies:
-                row["_keypred"] = t[1]
-                return True
+            # a single documented condition: it must be one of the conjuncts on the path (the last test may be another,
+            # benign one -- `match x { None if s.is_empty() => A, None => B }`)
+            t = ref["trigger"]
+            if len(trigs) <= 1 and loosen(t) in loosen(pool):
+                hits = [a for a in pool if loosen(a) == loosen(t)]
+                rest = [a for a in trigs if loosen(a) != loosen(t)]
+                for a in rest:
+                    if not benign_atom(a, hits, row, role_refs, rl):
+                        return "last test " + show_canon(a)
+            elif loosen(trigs) == loosen({t}):
+                hits = list(trigs)
+        elif "triggers" in ref:
+            if loosen(trigs) == loosen(ref["triggers"]):
+                hits = list(trigs)
+        else:
+            tk = ref["trigger_kind"]
+            ok = False
+            if tk == "occupied":
+                ok = len(trigs) == 1 and all(t[0] == "is" and t[-1] == "Occupied" and "Qualifiers::entry" in t[1] for t in trigs)
+            elif tk == "invalid-key":
+                if len(trigs) == 1:
+                    t = next(iter(trigs))
+                    if t[0] == "pred" and t[2] == (IN,) and t[3] is False and t[1] in facts.bodies:
+                        row["_keypred"] = t[1]
+                        ok = True
+            elif tk == "duplicate-insert":
+                ok = len(trigs) == 1 and all(t[0] == "pred" and t[1] == "std::option::Option::<T>::is_some" and t[3] is True and "HashMap" in str(t[2]) and "::insert" in str(t[2]) for t in trigs)
+            elif tk == "hex":
+                # any(!hexdigit) true | len % 2 != 0   -- details are checked by C12 HEX-GUARD
+                kinds = sorted(t[0] for t in trigs)
+                ok = kinds in (["cmp", "pred"], ["any", "cmp"], ["all", "cmp"])
+            if ok:
+                hits = list(trigs)
+        if hits is None:
             return False
-        if tk == "duplicate-insert":
-            return len(trigs) == 1 and all(t[0] == "pred" and t[1] == "std::option::Option::<T>::is_some" and t[3] is True and "HashMap" in str(t[2]) and "::insert" in str(t[2]) for t in trigs)
-        if tk == "hex":
-            # any(!hexdigit) true | len % 2 != 0   -- details are checked by C12 HEX-GUARD
-            kinds = sorted(t[0] for t in trigs)
-            return kinds in (["cmp", "pred"], ["any", "cmp"], ["all", "cmp"])
-        return False
+        bad = path_ok(hits, row, role_refs, rl)
+        return True if bad is None else bad
     if ref["kind"] in ("propagate", "tail"):
         if row["kind"] != ref["kind"]:
             return False
@@ -256,20 +382,20 @@ def row_matches(facts, rl, inv, ref, row):
             ok = rl.get(cr) == callee
         if not ok:
             return False
-        if ref.get("args") is None:
-            return True
-        args = row.get("args", ())
-        want = ref["args"]
-        if len(args) != len(want):
-            return False
-        for a, w in zip(args, want):
-            if w == "parts":
-                if not (isinstance(a, tuple) and a[0] == "Var"):
-                    return False
-            elif w == "qualifiers":
-                if not (isinstance(a, tuple) and a[0] == "Field" and a[1].endswith(".qualifiers")):
-                    return False
-            elif loosen(a) != loosen(w):
+        if ref.get("args") is not None:
+            args = row.get("args", ())
+            want = ref["args"]
+            if len(args) != len(want):
                 return False
-        return True
+            for a, w in zip(args, want):
+                if w == "parts":
+                    if not (isinstance(a, tuple) and a[0] == "Var"):
+                        return False
+                elif w == "qualifiers":
+                    if not (isinstance(a, tuple) and a[0] == "Field" and a[1].endswith(".qualifiers")):
+                        return False
+                elif loosen(a) != loosen(w):
+                    return False
+        bad = path_ok([], row, role_refs, rl, own=callee)
+        return True if bad is None else bad
     return False
